@@ -456,15 +456,16 @@ func init() {
 	})
 
 	// ---- errors
-	for _, n := range []string{"errors.New", "github.com/pkg/errors.New"} {
-		reg(n, func(fr *frame, a []value) value { return mkSymErr("errors.New", a[0]) })
-	}
+	reg("errors.New", func(fr *frame, a []value) value { return mkSymErr("errors.New", a[0]) })
+	reg("github.com/pkg/errors.New", func(fr *frame, a []value) value { return mkSymErr("pkgerrors.New", a[0]) })
 	reg("github.com/pkg/errors.Errorf", func(fr *frame, a []value) value {
 		return mkSymErr("errors.Errorf", symSprintf(fr, a[0], a[1].([]value)))
 	})
-	for _, n := range []string{"github.com/pkg/errors.WithStack", "github.com/ory/x/errorsx.WithStack"} {
-		reg(n, func(fr *frame, a []value) value { return a[0] })
-	}
+	// WithStack wraps: the result is a NEW error value (identity comparisons with the wrapped sentinel fail,
+	// type assertions to the wrapped concrete type fail) through which errors.Is / As / Unwrap / Cause look.
+	// errorsx.WithStack leaves an error alone that already carries a stack trace.
+	reg("github.com/pkg/errors.WithStack", func(fr *frame, a []value) value { return wrapWithStack(fr, a[0], false) })
+	reg("github.com/ory/x/errorsx.WithStack", func(fr *frame, a []value) value { return wrapWithStack(fr, a[0], true) })
 	reg("github.com/pkg/errors.Wrap", func(fr *frame, a []value) value { return a[0] })
 	reg("github.com/pkg/errors.Wrapf", func(fr *frame, a []value) value { return a[0] })
 	reg("github.com/pkg/errors.WithMessage", func(fr *frame, a []value) value { return a[0] })
@@ -480,6 +481,10 @@ func init() {
 	reg("github.com/pkg/errors.Cause", func(fr *frame, a []value) value {
 		e := a[0].(iface)
 		for k := 0; k < 32 && e.t != nil; k++ {
+			if w, ok := e.v.(*wrapErr); ok {
+				e = w.inner
+				continue
+			}
 			c, ok := callMethodIfAny(fr, e, "Cause")
 			if !ok {
 				break
@@ -890,6 +895,9 @@ func unwrapOnce(fr *frame, e iface) (iface, bool) {
 		return iface{}, false
 	}
 	if nt, ok := e.t.(*nativeType); ok {
+		if w, ok := e.v.(*wrapErr); ok {
+			return w.inner, true
+		}
 		if nt == nativeErrorT {
 			if n, ok := e.v.(native); ok {
 				if u, ok := n.v.(interface{ Unwrap() error }); ok {
@@ -979,4 +987,35 @@ func errorsAs(fr *frame, err, target iface) value {
 		err = next
 	}
 	return false
+}
+
+// wrapErr models pkg/errors' *withStack.
+type wrapErr struct{ inner iface }
+
+var wrapErrT = &nativeType{"*errors.withStack"}
+
+func hasStackTrace(fr *frame, e iface) bool {
+	switch v := e.v.(type) {
+	case *wrapErr:
+		return true
+	case *symErr:
+		return v.kind == "pkgerrors.New" || v.kind == "errors.Errorf"
+	}
+	if r, ok := callMethodIfAny(fr, e, "StackTrace"); ok {
+		if st, ok := r.([]value); ok {
+			return len(st) > 0
+		}
+	}
+	return false
+}
+
+func wrapWithStack(fr *frame, v value, keepIfTraced bool) value {
+	e, _ := v.(iface)
+	if e.t == nil {
+		return iface{}
+	}
+	if keepIfTraced && hasStackTrace(fr, e) {
+		return e
+	}
+	return iface{t: wrapErrT, v: &wrapErr{inner: e}}
 }
